@@ -106,7 +106,8 @@ inductive Ty where
   | collection (lo hi : Int)
   | tuple (ts : List Ty) (sz : Option (Int × Int))   -- `size` may be nil
   | struct (ms : List (Str × Bool × Ty))            -- per element: name, "the key is an Optional[…]", value type
-  | callable (ps ret blk : Option Ty)               -- `paramsType` (a Tuple, or nil), `returnType`, `blockType`
+  | callable (ps : Option (List Ty × Option (Int × Int))) (ret blk : Option Ty)
+      -- `paramsType` (nil, or a Tuple: member types and size), `returnType`, `blockType`
   | runtime (rt name : Str) (pat : Option Str)      -- runtime, name, pattern (the source of a Regexp type, or nil)
   | typeRef (s : Str)                               -- `TypeReference['s']`; also what an unknown type name resolves to
   deriving Repr, Inhabited
@@ -129,7 +130,9 @@ def Ty.beq : Ty → Ty → Bool
   | .collection a b, .collection c d => a == c && b == d
   | .tuple a b, .tuple c d => Ty.beqList a c && b == d
   | .struct a, .struct b => Ty.beqMembers a b
-  | .callable a b c, .callable d e f => Ty.beqOpt a d && Ty.beqOpt b e && Ty.beqOpt c f
+  | .callable none b c, .callable none e f => Ty.beqOpt b e && Ty.beqOpt c f
+  | .callable (some (ts, sz)) b c, .callable (some (us, usz)) e f =>
+    Ty.beqList ts us && sz == usz && Ty.beqOpt b e && Ty.beqOpt c f
   | .runtime a b c, .runtime d e f => a == d && b == e && c == f
   | .typeRef a, .typeRef b => a == b
   | _, _ => false
@@ -254,6 +257,19 @@ def memberKey (n : Str) (opt ov : Bool) : Val :=
   else if opt then .tyx "Optional".toList (some [.str n])
   else .tyx "NotUndef".toList (some [.str n])
 
+/-- the size part of `TupleType.Parameters`: nothing without a size, nothing for the default Tuple -/
+def tupleSizeVals (noTypes : Bool) (sz : Option (Int × Int)) : List Val :=
+  match sz with
+  | none => []
+  | some r => if noTypes ∧ r.1 = 0 ∧ r.2 = i64max then [] else sizeParams r.1 r.2
+
+/-- `CallableType.Parameters`: the parameters of the Tuple (given without its `Unit` members), then the block type; with a
+    return type the whole list becomes one array followed by the return type -/
+def callableVal (tp : List Val) (blk ret : Option Val) : Val :=
+  match ret with
+  | some r => tname .callable [.arr (tp ++ blk.toList), r]
+  | none => tname .callable (tp ++ blk.toList)
+
 mutual
 /-- the expression `Name` / `Name[p, …]` that `TypeToString` writes -/
 def tyExpr : Ty → Val
@@ -292,24 +308,8 @@ def tyExpr : Ty → Val
        | none => []
        | some r => if ts.isEmpty ∧ r.1 = 0 ∧ r.2 = i64max then [] else sizeParams r.1 r.2))
   | .struct ms => tname .struct (if ms.isEmpty then [] else [.hash (tyMembers ms)])
-  | .callable ps ret blk =>
-    -- `CallableType.Parameters`: the parameters of the Tuple without its `Unit` members, then the block type; with a
-    -- return type the whole list becomes one array followed by the return type
-    let tp : List Val :=
-      match ps with
-      | some (.tuple ts sz) =>
-        tyExprsNU ts ++
-          (match sz with
-           | none => []
-           | some r => if ts.isEmpty ∧ r.1 = 0 ∧ r.2 = i64max then [] else sizeParams r.1 r.2)
-      | _ => []
-    let pb : List Val :=
-      match blk with
-      | some b => tp ++ [tyExpr b]
-      | none => tp
-    match ret with
-    | some r => tname .callable [.arr pb, tyExpr r]
-    | none => tname .callable pb
+  | .callable none ret blk => callableVal [] (tyExprOpt blk) (tyExprOpt ret)
+  | .callable (some (ts, sz)) ret blk => callableVal (tyExprsNU ts ++ tupleSizeVals ts.isEmpty sz) (tyExprOpt blk) (tyExprOpt ret)
   | .runtime rt name pat =>
     if rt.isEmpty then tname .runtime []
     else
@@ -321,6 +321,9 @@ def tyExpr : Ty → Val
 def tyExprs : List Ty → List Val
   | [] => []
   | t :: ts => tyExpr t :: tyExprs ts
+def tyExprOpt : Option Ty → Option Val
+  | none => none
+  | some t => some (tyExpr t)
 /-- the member types of a Callable's parameter Tuple without the `Unit` members (`px.Select … !ok`) -/
 def tyExprsNU : List Ty → List Val
   | [] => []
@@ -547,16 +550,16 @@ def Arg.isBlock : Arg → Bool
 
 /-- the end of `tupleFromArgs(true, …)`: without member types a Callable's parameter Tuple holds one `Unit` (unless
     the size is `[0, 0]`) -/
-def tupleMkC (tys : List Arg) (rng : Option (Int × Int)) : Option Ty :=
+def tupleMkC (tys : List Arg) (rng : Option (Int × Int)) : Option (List Ty × Option (Int × Int)) :=
   match tys with
   | [] =>
     match rng with
-    | none => some (.tuple [tyUnit] none)
-    | some r => if r.1 = 0 ∧ r.2 = 0 then some (.tuple [] (some (0, 0))) else some (.tuple [tyUnit] (some r))
-  | _ => (tys.mapM argTy).map fun ts => .tuple ts rng
+    | none => some ([tyUnit], none)
+    | some r => if r.1 = 0 ∧ r.2 = 0 then some ([], some (0, 0)) else some ([tyUnit], some r)
+  | _ => (tys.mapM argTy).map fun ts => (ts, rng)
 
 /-- the size analysis of `tupleFromArgs(true, …)` on the flattened arguments (same as `tupleBody`, ending in `tupleMkC`) -/
-def tupleBodyC (l : List Arg) : Option Ty :=
+def tupleBodyC (l : List Arg) : Option (List Ty × Option (Int × Int)) :=
   match l.reverse with
   | [] => tupleMkC [] none
   | last :: restRev =>
@@ -574,9 +577,9 @@ def tupleBodyC (l : List Arg) : Option Ty :=
       | _ => (newInt m restRev.length).bind fun r => tupleMkC restRev.reverse (some r)
 
 /-- `tupleFromArgs(true, args)`: no arguments at all is the default Tuple -/
-def tupleCreateC (args : List Arg) : Option Ty :=
+def tupleCreateC (args : List Arg) : Option (List Ty × Option (Int × Int)) :=
   match args with
-  | [] => some (.tuple [] (some (0, i64max)))
+  | [] => some ([], some (0, i64max))
   | _ => (tupleFlat args).bind tupleBodyC
 
 /-- the `px.List` view of an argument (`first.(px.List)`): an Array, but also a String (its characters) and a Hash (its
@@ -592,37 +595,44 @@ def callableTupleForm (args : List Arg) : Option Ty :=
   match args with
   | .ty (.tuple ts sz) :: rest =>
     match rest with
-    | [] => some (.callable (some (.tuple ts sz)) none none)
-    | [b] => (argTy b).map fun bt => .callable (some (.tuple ts sz)) none (some bt)
-    | b :: r :: _ => (argTy r).map fun rt => .callable (some (.tuple ts sz)) (some rt) (argTy b)   -- `ok` is that of the LAST assertion
+    | [] => some (.callable (some (ts, sz)) none none)
+    | [b] => (argTy b).map fun bt => .callable (some (ts, sz)) none (some bt)
+    | b :: r :: _ => (argTy r).map fun rt => .callable (some (ts, sz)) (some rt) (argTy b)   -- `ok` is that of the LAST assertion
   | _ => none
+
+/-- the block type: the last argument when it is a `Callable` or an `Optional[Callable]` (`args.At(argc - 1)`; no argument:
+    `undef`, no block) -/
+def blockSplit (inner : List Arg) : Option Ty × List Arg :=
+  match inner.reverse with
+  | last :: restRev => if last.isBlock then (argTy last, restRev.reverse) else (none, inner)
+  | [] => (none, inner)
+
+/-- the end of `newCallableType3`: `NewCallableType(tupleFromArgs(true, args), rt, block)` -/
+def callableFrom (rt : Option Ty) (inner : List Arg) : Option Ty :=
+  (tupleCreateC (blockSplit inner).2).map fun tp => .callable (some tp) rt (blockSplit inner).1
+
+/-- `[[params, block], return]`: with one or two arguments of which the first is a `px.List`, that list holds the
+    arguments and the second argument (which must then be a type) is the return type -/
+def callableSplit (args : List Arg) : Option (Option Ty × List Arg) :=
+  match args with
+  | [a] =>
+    match a.asList with
+    | some iv => some (none, iv)
+    | none => some (none, args)
+  | [a, b] =>
+    match a.asList with
+    | some iv =>
+      match b with
+      | .ty r => some (some r, iv)
+      | _ => none
+    | none => some (none, args)
+  | _ => some (none, args)
 
 /-- `newCallableType3` (at least one argument) -/
 def callableCreate (args : List Arg) : Option Ty :=
   match callableTupleForm args with
   | some t => some t
-  | none =>
-    -- `[[params, block], return]`
-    let split : Option (Option Ty × List Arg) :=
-      match args with
-      | [a] =>
-        match a.asList with
-        | some iv => some (none, iv)
-        | none => some (none, args)
-      | [a, b] =>
-        match a.asList with
-        | some iv =>
-          match b with
-          | .ty r => some (some r, iv)
-          | _ => none
-        | none => some (none, args)
-      | _ => some (none, args)
-    split.bind fun (rt, inner) =>
-      let (blk, inner2) : Option Ty × List Arg :=
-        match inner.reverse with
-        | last :: restRev => if last.isBlock then (argTy last, restRev.reverse) else (none, inner)
-        | [] => (none, inner)
-      (tupleCreateC inner2).map fun tp => .callable (some tp) rt blk
+  | none => (callableSplit args).bind fun p => callableFrom p.1 p.2
 
 /-! #### Runtime, TypeReference -/
 
